@@ -79,6 +79,8 @@ Step ==
        [] E.ev = "req" -> reqs' = Append(reqs, E) /\ UNCHANGED <<transport, resps, invs, ref>>
        [] E.ev = "resp" -> resps' = Append(resps, E) /\ UNCHANGED <<transport, reqs, invs, ref>>
        [] E.ev = "invoked" -> invs' = (IF E.tag = "mw" THEN invs ELSE Append(invs, E.tag)) /\ UNCHANGED <<transport, reqs, resps, ref>>
+       \* the peer met a header that does not frame itself and stopped reading: the run ends idle (missing responses)
+       [] E.ev = "garbled" -> UNCHANGED <<transport, reqs, resps, invs, ref>>
        [] E.ev = "end" ->
             LET v == Verdict(E.idle) IN
             /\ (v # "" => TLCSet(2, Append(TLCGet(2), <<l, v>>)))
